@@ -10,19 +10,25 @@ open ClockBound
     recent synchronised report -/
 theorem model_holds (drift : Nat) (msgs : List Msg) :
     Holds (msgs.map abstractMsg) (Updater.run (Updater.new drift) msgs) = true := by
-  sorry
+  exact C09_holds drift msgs
 
 /-- from daemon start until the first synchronised report, whatever chronyd answers, every
     published record says Unknown -/
 theorem unknown_until_first_sync (drift : Nat) (msgs : List Msg)
     (h : lastSync (msgs.map abstractMsg) = none) :
     ∀ r ∈ Updater.run (Updater.new drift) msgs, r.status = .unknown := by
-  sorry
+  apply run_unknown (Updater.new drift) msgs rfl
+  intro m hm
+  exact (lastSync_eq_none_iff _).mp h _ (List.mem_map_of_mem hm)
 
 /-- and the client reports Unknown for such a record at every uptime -/
 theorem client_sees_unknown (r : Record) (h : r.status = .unknown) (real mono e l : TimeSpec)
     (st : Status) (hout : computeBoundAt r real mono = .ok e l st) : st = .unknown := by
-  sorry
+  have h1 := computeBoundAt_ok_status hout
+  have h2 : clientStatus r mono = some .unknown := by
+    unfold clientStatus; rw [h]
+  rw [h2] at h1
+  exact (Option.some.inj h1).symm
 
 /-- non-vacuity: a leap-3 report and an in-grace silence right after start publish Unknown -/
 example : (Updater.run (Updater.new 1000)
